@@ -19,7 +19,7 @@ def dir1(chk, quick, rnd):
         if quick and rnd.random() > (0.25 if l['plaus'] == '' else 0.05):
             continue
         items.append(('intel', l['intel'], l))
-        if 'att' in l and rnd.random() < 0.5:
+        if 'att' in l and (not quick or rnd.random() < 0.5):
             items.append(('att', l['att'], l))
     outs = asmlib.run_asm([(syn, asm_text.render(lay)) for syn, lay, l in items])
     uniq = sorted(set(c for o in outs for c in o['c']))
@@ -88,8 +88,12 @@ def report(chk, recs, verdicts):
             rt = r['rts'][f['k'] - 1]
             e = (rt.get('exc') if f['clause'] == 'C03.dis_accepts' else (rt.get('asm') or {}).get('exc')) or {}
             site = e.get('func', '') if f['how'] in ('exc', 'reject', 'internal') else ''
-            key = {'clause': f['clause'], 'dir': r['dir'], 'mn': (rt['text'].split() or [r['mn']])[0] if rt['st'] == 'instr' else r['mn'],
-                   'how': f['how'], 'site': site, 'shape': rshape(rt['text']) if rt['st'] == 'instr' else ''}
+            shp = rshape(rt['text']) if rt['st'] == 'instr' else ''
+            # the mnemonic belongs to the class only where the re-assembled bytes are wrong for an ordinary operand form;
+            # rejections, crashes, empty results and segment-override / bracket-less renderings are parser-level causes
+            specific = f['how'] == 'list' and '/seg' not in shp and 'nobracket' not in shp
+            key = {'clause': f['clause'], 'dir': r['dir'], 'mn': ((rt['text'].split() or [r['mn']])[0] if rt['st'] == 'instr' else r['mn']) if specific else '',
+                   'how': f['how'], 'site': site, 'shape': shp}
             ks = json.dumps(key, sort_keys=True)
             if ks in seen:
                 continue
